@@ -267,7 +267,7 @@ def standard(pid, tier, mc, weak, scen, notes=None, site_of=None, extra_scen=Non
     jobs, kinds = [], []
     for fam in list(mc) + list(mc_expect_violation):
         cfg = "GadgetSearch_%s%s.cfg" % (fam, sfx)
-        jobs.append(dict(module="GadgetSearch", cfg=cfg, workers=4, timeout=3000, check_error=False, heap="8g"))
+        jobs.append(dict(module="GadgetSearch", cfg=cfg, workers=4, timeout=3000 if tier == "quick" else 6000, check_error=False, heap="8g"))
         kinds.append(("mc", fam, cfg))
     for cfgname in weak:
         cfg = "GadgetSearch_%s.cfg" % cfgname
